@@ -86,6 +86,11 @@ func (c *Ctx) Assume(a string) {
 // the same key are merged (the obligation holds only if every report holds).
 func (c *Ctx) Check(key, rule string, pos token.Pos, ok bool, witness string) {
 	c.Evals++
+	// rules shared between properties carry their home property's prefix;
+	// report them under the property being checked
+	if len(key) > 4 && key[0] == 'C' && key[3] == '/' && len(c.Prop) == 3 && key[:3] != c.Prop {
+		key = c.Prop + key[3:]
+	}
 	o := c.byKey[key]
 	if o == nil {
 		o = &Ob{Key: key, Rule: rule, Site: c.P.Pos(pos), OK: true}
